@@ -64,6 +64,7 @@ def _work(idx):
         out["errors"].append({"stage": "build", "exc": f"{type(ex).__name__}: {ex}",
                               "tb": traceback.format_exc(limit=6)})
         return out
+    lost_keys_all = set()
     try:
         if opts.get("soundness", True):
             w, inc = A.soundness(p, b, s, V, max_witnesses=opts.get("max_witnesses", 6), assertions=smt_assertions)
@@ -105,6 +106,7 @@ def _work(idx):
             out["checked_pins"] = chk
             out["lost"] = lost[:opts.get("max_lost", 500)]
             out["n_lost"] = len(lost)
+            lost_keys_all = {tlc.key_of(v) for v in lost}
         if opts.get("indicators", True) and p["inds"]:
             bad, inc, chk = A.indicator_identity(p, b, s, V)
             out["inconclusive"] += inc
@@ -138,7 +140,7 @@ def _work(idx):
         # spec -> code through the public API: pin a behaviour of the specification, solve(),
         # the returned solution must be exactly that behaviour
         rnd = random.Random(opts.get("seed", 0) * 7919 + p["id"])
-        must = [v for v in V.values() if not v.get("unspec")]
+        must = [v for v in V.values() if not v.get("unspec") and tlc.key_of(v) not in lost_keys_all]
         k = opts.get("replay_per_problem", 1)
         for v in rnd.sample(must, min(k, len(must))):
             try:
